@@ -1,7 +1,7 @@
 (* C32 — property theorems only.  Each is closed by `exact <lemma>` and followed by Print Assumptions.
    (Refutations / examples are closed by vm_compute on a concrete witness.) *)
 From Coq Require Import List ZArith NArith Arith Bool.
-From Verif.C32 Require Import Model Spec Proofs.
+From Verif.C32 Require Import Model Spec Proofs Walk.
 Import ListNotations.
 Open Scope Z_scope.
 
@@ -65,6 +65,32 @@ Print Assumptions c32_model_meets_spec_add_partial.
 Theorem c32_future_rejected : forall r t, eoh r <= t -> find_bucket r t = None.
 Proof. exact find_bucket_future_rejected. Qed.
 Print Assumptions c32_future_rejected.
+
+(* ---- the repaired code (fixes 2c43ef2 + 3086c2e in /repo; model variant fix_walk = true) ---- *)
+
+(* Termination of the emission walk, by the distance-from-head measure: in every consistent ring whose configuration
+   satisfies 1 <= bucketsToAggregate and pushAfter + bucketsToAggregate + 2 <= numBuckets the walk stops within the
+   model's fuel; the end of each window is d steps behind the head, d grows by bucketsToAggregate per window and the
+   walk stops at the latest when d + bucketsToAggregate reaches numBuckets (Walk.emit_walk_shape). *)
+Theorem c32_emit_terminates : forall r, ring_ok r -> cfg_ok r -> emit r <> None.
+Proof. exact emit_terminates. Qed.
+Print Assumptions c32_emit_terminates.
+
+(* Every bucket interval goes to the sink at most once, and the emission never diverges: for EVERY valid configuration
+   and EVERY interleaving of ingest / rollover (with or without sink) / sink attach / List / Statistics, the time
+   intervals of all collections handed to the sink over the whole history are pairwise disjoint.
+   Invariant (Walk.pinv): the intervals handed over so far are pairwise disjoint, each bucketsToAggregate*interval long
+   and ending at or before the emission horizon eoh-(pushAfter+2)*interval, and a retained slot is pushed iff its start
+   lies in one of them; the walk argument shows a window whose start slot is unpushed overlaps none of them. *)
+Theorem c32_emit_at_most_once : forall n interval now p k fa ops,
+  (1 <= k)%nat -> (p + k + 2 <= n)%nat -> 0 < interval ->
+  pdisj (emitted_intervals (run (new_ring n interval now p k true fa) ops))
+  /\ ~ In ODiverge (run (new_ring n interval now p k true fa) ops).
+Proof.
+  intros n interval now p k fa ops Hk Hc Hi.
+  exact (run_winv ops _ [] (new_ring_winv n interval now p k fa Hk Hc Hi)).
+Qed.
+Print Assumptions c32_emit_at_most_once.
 
 (* ---- the property is FALSE of the code as found (variant fw = fa = false); witnesses replayed on the real code ---- *)
 Definition fl (k : N) (t p b : Z) : flow := {| f_key := k; f_start := t; f_cnt := (p, b) |}.
